@@ -94,7 +94,27 @@ def strict_pattern_equiv(a, e, patterns):
     if a == e:
         return True
     for p in patterns or []:
-        if p.startswith('^') or p.endswith('$'):
+        start = p.startswith('^')
+        end = p.endswith('$') and not p.endswith('\\$')
+        if start or end:
+            # a pattern tied to the start / end of the line: the tied match on each side, the rest identical,
+            # and no second way of matching (sufficient, not necessary)
+            core = p[1:] if start else p
+            core = core[:-1] if end else core
+            try:
+                rx = re.compile(core)
+            except re.error:
+                continue
+            for ma in rx.finditer(a):
+                for me in rx.finditer(e):
+                    if start and (ma.start() != 0 or me.start() != 0):
+                        continue
+                    if end and (ma.end() != len(a) or me.end() != len(e)):
+                        continue
+                    if (a[:ma.start()] == e[:me.start()] and a[ma.end():] == e[me.end():]
+                            and ma.end() > ma.start() and me.end() > me.start()
+                            and len(rx.findall(a)) == 1 and len(rx.findall(e)) == 1):
+                        return True
             continue
         rx = re.compile(p)
         for ma in rx.finditer(a):
